@@ -152,11 +152,12 @@ def Regs.setNf (r : Regs) (v : Bool) : Regs := { r with f := setFlag nFlag v r.f
 def Regs.setHf (r : Regs) (v : Bool) : Regs := { r with f := setFlag hFlag v r.f }
 def Regs.setCf (r : Regs) (v : Bool) : Regs := { r with f := setFlag cFlag v r.f }
 
-def hc8 (a b : Byte) : Bool := decide ((a &&& 0x0f) + (b &&& 0x0f) > 0x0f)
+/- `x & 0x0f` on an unsigned byte is `x % 16`: the helpers are written on `toNat` so that `omega` can reason about them -/
+def hc8 (a b : Byte) : Bool := decide (a.toNat % 16 + b.toNat % 16 > 15)
 def c8 (a b : Byte) : Bool := decide (a.toNat + b.toNat > 0xff)
-def hc16 (a b : Word) : Bool := decide ((a &&& 0x0fff) + (b &&& 0x0fff) > 0x0fff)
+def hc16 (a b : Word) : Bool := decide (a.toNat % 4096 + b.toNat % 4096 > 4095)
 def c16 (a b : Word) : Bool := decide (a.toNat + b.toNat > 0xffff)
-def hc8Sub (a b : Byte) : Bool := decide ((a &&& 0x0f).toNat < (b &&& 0x0f).toNat)
+def hc8Sub (a b : Byte) : Bool := decide (a.toNat % 16 < b.toNat % 16)
 def c8Sub (a b : Byte) : Bool := decide (a.toNat < b.toNat)
 
 def Cond.holds (c : Cond) (r : Regs) : Bool :=
@@ -172,7 +173,7 @@ def adc (r : Regs) (u8 : Byte) : Regs :=
   let cf := c8 a u8
   let cin := r.cf
   let a2 := if cin then a1 + 1 else a1
-  let hf2 := if cin then hf || (a2 &&& 0x0f == 0) else hf
+  let hf2 := if cin then hf || decide (a2.toNat % 16 = 0) else hf
   let cf2 := if cin then cf || (a2 == 0) else cf
   ((({ r with a := a2 }.setZf (a2 == 0)).setNf false).setHf hf2).setCf cf2
 
@@ -208,7 +209,7 @@ def sbc (r : Regs) (u8 : Byte) : Regs :=
   let cf := c8Sub a u8
   let cin := r.cf
   let a2 := if cin then a1 - 1 else a1
-  let hf2 := if cin then hf || (a2 &&& 0x0f == 0x0f) else hf
+  let hf2 := if cin then hf || decide (a2.toNat % 16 = 15) else hf
   let cf2 := if cin then cf || (a2 == 0xff) else cf
   ((({ r with a := a2 }.setZf (a2 == 0)).setNf true).setHf hf2).setCf cf2
 
@@ -224,8 +225,8 @@ def daaF (r : Regs) : Regs :=
     ({ r with a := a2 }.setZf (a2 == 0)).setHf false
   else
     let a := r.a
-    let a1 := if r.hf || decide ((a &&& 0x0f).toNat > 0x09) then a + 0x06 else a
-    let adj := r.cf || decide ((a &&& 0xf0).toNat > 0x90) || decide ((a1 &&& 0xf0).toNat > 0x90)
+    let a1 := if r.hf || decide (a.toNat % 16 > 9) then a + 0x06 else a
+    let adj := r.cf || decide (a.toNat / 16 > 9) || decide (a1.toNat / 16 > 9)
     let a2 := if adj then a1 + 0x60 else a1
     let r1 := { r with a := a2 }
     let r2 := if adj then r1.setCf true else r1
@@ -253,15 +254,15 @@ def addSPF (r : Regs) : Regs :=
   let sp := r.sp
   let new := sp + sext r.u8a
   ((({ r with sp := new }.setZf false).setNf false).setHf
-      (decide ((sp &&& 0x0f).toNat + (r.u8a &&& 0x0f).toNat > 0x0f))).setCf
-      (decide ((sp &&& 0xff).toNat + r.u8a.toNat > 0xff))
+      (decide (sp.toNat % 16 + r.u8a.toNat % 16 > 15))).setCf
+      (decide (sp.toNat % 256 + r.u8a.toNat > 255))
 
 def ldHLSPF (r : Regs) : Regs :=
   let sp := r.sp
   let new := sp + sext r.u8a
   ((({ r with h := hi8 new, l := lo8 new }.setZf false).setNf false).setHf
-      (decide ((sp &&& 0x0f).toNat + (r.u8a &&& 0x0f).toNat > 0x0f))).setCf
-      (decide ((sp &&& 0xff).toNat + r.u8a.toNat > 0xff))
+      (decide (sp.toNat % 16 + r.u8a.toNat % 16 > 15))).setCf
+      (decide (sp.toNat % 256 + r.u8a.toNat > 255))
 
 def rotCore (op : RotOp) (cin : Bool) (v : Byte) : Byte × Bool :=
   match op with
